@@ -94,9 +94,9 @@ func (w *World) initNode(n *Node) {
 	n.bootAt = 0
 	switch n.cfg.Kind {
 	case "stump":
-		n.st = u.Stump{}
+		n.st = n.bigStump(NewState())
 	case "light":
-		n.st = u.Stump{}
+		n.st = n.bigStump(NewState())
 		n.cp = u.Proof{}
 		n.ch = nil
 		n.held = map[H]bool{}
@@ -276,7 +276,10 @@ func (w *World) rootsAgree(n *Node, st *State) bool {
 	var roots []H
 	var num uint64
 	if n.isStumpy() {
-		roots, num = n.st.Roots, n.st.NumLeaves
+		var ok bool
+		if roots, num, ok = n.smallView(); !ok {
+			return false
+		}
 	} else {
 		err, _ := guard(func() error { roots, num = n.acc.GetRoots(), n.acc.GetNumLeaves(); return nil })
 		if err != nil {
@@ -293,7 +296,8 @@ func (w *World) rawApply(n *Node, b *Block) bool {
 	case "stump", "light":
 		nb := &nodeBlk{preStump: copyStump(n.st)}
 		var ud u.UpdateData
-		err, _ := guard(func() error { var e error; ud, e = n.st.Update(b.Dels, b.Adds, b.Proof); return e })
+		bp := n.upProof(b.Proof, b.Pre.N)
+		err, _ := guard(func() error { var e error; ud, e = n.st.Update(b.Dels, b.Adds, bp); return e })
 		if err != nil {
 			return false
 		}
@@ -307,7 +311,7 @@ func (w *World) rawApply(n *Node, b *Block) bool {
 			}
 			err, _ = guard(func() error {
 				var e error
-				n.ch, e = n.cp.Update(n.ch, b.Adds, b.Proof.Targets, nb.rem, ud)
+				n.ch, e = n.cp.Update(n.ch, b.Adds, bp.Targets, nb.rem, ud)
 				return e
 			})
 			if err != nil {
@@ -551,6 +555,7 @@ func (w *World) applyStumpy(n *Node, b *Block) {
 			dels, proof = d2, p2
 		}
 	}
+	proof = n.upProof(proof, b.Pre.N)
 	nb := &nodeBlk{preStump: copyStump(n.st)}
 	n.blk[b.ID] = nb
 	// stand-alone verification first (what a validating node does)
@@ -563,6 +568,12 @@ func (w *World) applyStumpy(n *Node, b *Block) {
 		w.blame(n, "verify-honest", "stand-alone Verify rejected an honest block proof: "+err.Error())
 	} else if w.on("prove") && n.cfg.Relay == "" {
 		want := b.Pre.Layout().TreesWith(b.Dels)
+		if n.big() {
+			k := len(n.bigRoots())
+			for i := range want {
+				want[i] += k
+			}
+		}
 		if !sameIntSet(idx, want) {
 			w.violate(n, "C02", "verify-root-indexes", fmt.Sprintf("Verify reported trees %v, targets lie in %v", idx, want))
 		}
@@ -579,7 +590,7 @@ func (w *World) applyStumpy(n *Node, b *Block) {
 	w.fp.track("UpdateData", ud.ToDestroy, ud.NewDelHash, ud.NewDelPos, ud.NewAddHash, ud.NewAddPos)
 	nb.ud = ud
 	if w.on("updatedata") && n.cfg.Relay == "" {
-		w.checkUpdateData(n, b, ud)
+		w.checkUpdateData(n, b, n.downUD(ud, b.Pre.N, b.Post.N))
 		if w.stop {
 			return
 		}
